@@ -591,7 +591,9 @@ func runStoreTTLChain(c *Ctx, rule string) {
 	saver := c.funcHandedTo(rule, c.Fn(rule, "(*pkg/sessions/persistence.Manager).Save"), c.Fn(rule, "(*pkg/sessions/persistence.ticket).saveSession"))
 	ttlLinkFn(saver, "the saver of Manager.Save", func(cc *ssa.CallCommon) bool {
 		return cc.IsInvoke() && cc.Method.Name() == "Save"
-	}, 3, func(v ssa.Value, fn *ssa.Function) bool { return len(fn.Params) > 0 && v == fn.Params[len(fn.Params)-1] }, "Store.Save(ctx, key, val, exp)")
+	}, 3, func(v ssa.Value, fn *ssa.Function) bool {
+		return len(fn.Params) > 0 && v == fn.Params[len(fn.Params)-1]
+	}, "Store.Save(ctx, key, val, exp)")
 	ttlLink("(*pkg/sessions/redis.SessionStore).Save", func(cc *ssa.CallCommon) bool {
 		return cc.IsInvoke() && cc.Method.Name() == "Set"
 	}, 3, paramN(4), "Client.Set(ctx, key, value, exp)")
